@@ -83,7 +83,7 @@ theorem dbDel_sorted (k : Bytes) (db : Db) (hs : SortedDb db) : SortedDb (dbDel 
     `ListDirectoryPrefixedEntries` of leveldb/leveldb2/leveldb3 hands out exactly the first `limit`
     children that have the prefix and lie after the start, in name order (foreign keys — other
     directories, kv entries — never leak in, the scan stops exactly at the end of the prefix range) -/
-theorem store_scan_exact (nameOf : Bytes → Bytes) (dk : Bytes) (db : Db) (start : Bytes) (incl : Bool) (limit : Nat)
+theorem store_scan_exact_partial (nameOf : Bytes → Bytes) (dk : Bytes) (db : Db) (start : Bytes) (incl : Bool) (limit : Nat)
     (pfx : Bytes) (hs : SortedDb db) (hwf : KeysWF nameOf dk db) (hstart : start = [] ∨ ltB start pfx = false) :
     storeList nameOf dk db start incl limit pfx = ((children nameOf dk db).filter (sel start incl pfx)).take limit :=
   storeList_exact nameOf dk db start incl limit pfx hs hwf hstart
@@ -141,14 +141,14 @@ theorem listing_exact_partial (k : Kind) (dk : Bytes) (db : Db) (r : Req) (hs : 
 /-- MAIN, generic path: the same for stores WITHOUT native prefix listing
     (`FilerStoreWrapper.prefixFilterEntries`, as repaired): every start name is fine here, the
     start-before-prefix defect does not exist on this path -/
-theorem listing_exact_generic (k : Kind) (dk : Bytes) (db : Db) (r : Req) (hgen : k.native = false) (hs : SortedDb db)
+theorem listing_exact_generic_partial (k : Kind) (dk : Bytes) (db : Db) (r : Req) (hgen : k.native = false) (hs : SortedDb db)
     (hwf : KeysWF k.nameOf dk db) (hlive : ∀ p ∈ children k.nameOf dk db, p.2 = false) (hgood : GoodReq r) :
     (stream k dk db r).map (·.1) = some (specList (childNames k.nameOf dk db) r) := by
   by_cases hp : effPrefix r = []
   · exact listing_exact_partial k dk db r hs hwf hlive hgood (Or.inr hp) (Or.inr (by rw [hp]; exact ltB_nil_right _))
   · exact stream_of_dirListLive k dk db r _ (dirListLive_generic k dk (effPrefix r) db hgen hp hs hwf hlive) trivial hlive hgood
 
-/-- non-vacuity of `listing_exact_generic`: generic store, names a ab b ba bb c, prefix b, start a (before the
+/-- non-vacuity of `listing_exact_generic_partial`: generic store, names a ab b ba bb c, prefix b, start a (before the
     prefix!), limit 2 ⇒ [b, ba] -/
 example :
     let dk : Bytes := [47, 100, 0]
